@@ -111,7 +111,19 @@ func child(c *eng.Ctx) error {
 	return os.WriteFile(path+".out", out, 0o644)
 }
 
-func gen(rng *rand.Rand) scenario {
+// templates: call sequences that every run covers (overwriting existing metadata on incomplete and complete
+// blobs, ban / unban, eviction by admission, delete), with the configuration still drawn from the seed.
+var templates = [][]call{
+	{{Op: "Create", K: 0, Sz: 2, C: 1}, {Op: "SetMd", K: 0, S: "mov", V: 1}, {Op: "SetMd", K: 0, S: "mov", V: 2}, {Op: "SetMd", K: 0, S: "fix", V: 1},
+		{Op: "MarkComplete", K: 0}, {Op: "SetMd", K: 0, S: "mov", V: 3}, {Op: "Ban", K: 0}, {Op: "SetMd", K: 0, S: "mov", V: 1}, {Op: "Unban", K: 0}, {Op: "DelMd", K: 0, S: "mov"}, {Op: "Delete", K: 0}},
+	{{Op: "Create", K: 0, Sz: 2, C: 1}, {Op: "MarkComplete", K: 0}, {Op: "Create", K: 1, Sz: 2, C: 2}, {Op: "SetMd", K: 1, S: "mov", V: 2}, {Op: "MarkComplete", K: 1},
+		{Op: "Create", K: 2, Sz: 3, C: 3}, {Op: "Ban", K: 1}, {Op: "SetMd", K: 1, S: "mov", V: 3}, {Op: "Create", K: 0, Sz: 1, C: 2}, {Op: "Delete", K: 1}},
+}
+
+func gen(rng *rand.Rand, s int) scenario {
+	if s < len(templates) {
+		return scenario{Cap: []int{4, 6}[rng.Intn(2)], Shard: []int{0, 2}[rng.Intn(2)], Reboot: rng.Intn(2) == 0, Calls: append([]call{}, templates[s]...)}
+	}
 	sc := scenario{Cap: []int{4, 6, 64}[rng.Intn(3)], Shard: []int{0, 2}[rng.Intn(2)], Reboot: rng.Intn(2) == 0}
 	n := 4 + rng.Intn(5)
 	st := make([]int, nk) // generator-side guess only to bias towards meaningful calls: 0 absent 1 inc 2 comp
@@ -146,7 +158,7 @@ func gen(rng *rand.Rand) scenario {
 }
 
 func run(c *eng.Ctx) error {
-	nsc := c.N(6, 60)
+	nsc := c.N(7, 60)
 	root, err := os.MkdirTemp("", "kvh-c06-")
 	if err != nil {
 		return err
@@ -157,7 +169,7 @@ func run(c *eng.Ctx) error {
 	prefixes := 0
 	for s := 0; s < nsc; s++ {
 		rng := rand.New(rand.NewSource(c.Seed*7919 + int64(s)*104729 + 3))
-		sc := gen(rng)
+		sc := gen(rng, s)
 		sc.Dir = filepath.Join(root, fmt.Sprintf("s%d", s), "store")
 		os.MkdirAll(filepath.Dir(sc.Dir), 0o755)
 		spath := filepath.Join(root, fmt.Sprintf("s%d.json", s))
